@@ -85,6 +85,14 @@ type garbageMarshaler struct{}
 
 func (garbageMarshaler) MarshalJSON() ([]byte, error) { return []byte("{\"x\":\n"), nil }
 
+// indentedMarshaler succeeds with valid but pretty-printed JSON: the line breaks must not
+// reach the log line
+type indentedMarshaler struct{}
+
+func (indentedMarshaler) MarshalJSON() ([]byte, error) {
+	return []byte("{\n  \"a\": 1,\n  \"b\": [\n    true\n  ]\n}"), nil
+}
+
 type okText struct{}
 
 func (okText) MarshalText() ([]byte, error) { return []byte("text=\"v\" x"), nil }
@@ -152,6 +160,8 @@ var Leaves = []*Leaf{
 	{"map", func() any { return map[string]int{"b": 2, "a": 1} }, wantMarshal(map[string]int{"b": 2, "a": 1}), text("map[a:1 b:2]")},
 	{"struct", func() any { return pair{7, "x<y>&\"z\""} }, wantMarshal(pair{7, "x<y>&\"z\""}), text("{7 x<y>&\"z\"}")},
 	{"marshaler-ok", func() any { return okMarshaler{} }, wantMarshal(okMarshaler{}), text("{}")},
+	{"marshaler-indented", func() any { return indentedMarshaler{} }, wantMarshal(indentedMarshaler{}), text("{}")},
+	{"rawmessage-multiline", func() any { return json.RawMessage("[1,\n 2]") }, wantMarshal(json.RawMessage("[1,\n 2]")), func() (string, bool) { return "", false }},
 	{"marshaler-err", func() any { return errMarshaler{} }, wantErrString, text("{}")},
 	{"marshaler-garbage", func() any { return garbageMarshaler{} }, wantErrString, text("{}")},
 	{"rawmessage", func() any { return json.RawMessage(`{"r": [1, {"k":"v"}]}`) }, wantMarshal(json.RawMessage(`{"r": [1, {"k":"v"}]}`)), func() (string, bool) { return "", false }},
